@@ -116,7 +116,7 @@ type suspProg struct {
 func runEffectsFront(r *hlib.Run, rnd *hlib.Rand) func(r *hlib.Run, sb *hlib.StdBuild, rnd *hlib.Rand) func() {
 	n := 800
 	if r.Thorough {
-		n = 12000
+		n = 6000
 	}
 	// hand-written corner cases first (each is one method body in a pure m0 unless noted)
 	progs := effCorners()
